@@ -24,7 +24,7 @@ META = {
     "design_ref": "DESIGN.md §4 C02",
     "technique": "Coq proof over R (induction over the gradient history with the state correspondence as invariant) relating the C01 block-step model to hand-written models of torch.optim.{SGD,Adagrad,RMSprop,Adam,AdamW}; three-way correspondence evaluated by vm_compute: torch model vs real torch.optim, Shampoo vs the C01 model, and Shampoo vs torch.optim directly; per-block norm transfer checked on the implementation's parameter deltas",
     "level_text": "Theorems (coq/props/C02.v) over the reals, for every history length, presence pattern and block shape: while the group's step counter is below start_preconditioning_step, Optimizer.block_step (the model C01 ties to /repo) run over a block's history yields, after every step, the same parameter values and corresponding state (second moment = grafting accumulator, first moment = filtered gradient, momentum buffer, step counter) as the model of torch.optim.SGD (momentum, Nesterov, coupled decay, dampening = 0; the guard is shown necessary by warmup_sgd_dampening_refuted), Adagrad (lr_decay 0), RMSprop (optional momentum), Adam and AdamW (beta3 = beta1, bias correction on, the block has a gradient whenever its group steps, exact float32 bias-correction scalars), torch running with the binary32 rounding of lr; from start_preconditioning_step on, every block's search direction is k x P_shampoo with k >= 0 and norm ||P_graft|| ||P_s|| / (||P_s|| + 1e-16).  Also proved: the block-event semantics used in these statements is the k-th block of Optimizer.group_step iterated over any group history (C02_group_run_block), and each torch step distributes over concatenation (C02_*_step_blockwise: torch.optim is element-wise, so a parameter's torch trajectory restricted to a block is the block's torch trajectory, whatever the merging/blocking).  All theorems are fully proved (nothing partial, no _statement left).  Tie, on every run: the torch models are compared with the real torch.optim, the Shampoo model with DistributedShampoo (as in C01), and DistributedShampoo with torch.optim directly at 1e-12 on blocked, merged and higher-order parameters with absent-gradient patterns; per-block delta norms and directions after the start step.",
-    "level_note": "Trusted: Coq kernel + vm_compute; stdlib real-number axioms; both hand-written models, believed as far as the correspondence runs exercise them (binary64 parameters; lr binary32-representable and dyadic betas with <= 8 steps in the exact class so that Shampoo's float32 lr and bias-correction scalars are exact; a `loose` class with lr<=1e-2, betas .9/.999 at 2e-5: there Shampoo's float32 bias correction 1-beta2^t loses up to 3e-5 relative by cancellation).  The theorems are per block with the block's group counter; that a parameter is the disjoint union of its blocks is C05 (not re-proved here).  The Adam/AdamW theorems assume the float32 bias-correction scalars equal their real values (hints exact), as in C01.  Floating-point rounding of either side is not modelled.",
+    "level_note": "Trusted: Coq kernel + vm_compute; stdlib real-number axioms; both hand-written models, believed as far as the correspondence runs exercise them (binary64 parameters; lr binary32-representable and dyadic betas with <= 8 steps in the exact class so that Shampoo's float32 lr and bias-correction scalars are exact; a `loose` class with lr<=1e-2, betas .9/.999 at 2e-5: there Shampoo's float32 bias correction 1-beta2^t loses up to 3e-5 relative by cancellation).  The theorems are per block with the block's group counter; that a parameter is the disjoint union of its blocks is C05 (not re-proved here).  The Adam/AdamW theorems assume the float32 bias-correction scalars equal their real values (hints exact), as in C01.  Floating-point rounding of either side is not modelled.  Quantifier audit (coverage.quantifier_audit / not_exercised): targeted input classes run in every tier - Adam with beta1 = 0, present-but-zero / tiny / large gradients, gradients with non-default memory layouts (found F13: grad.view raised on non-viewable layouts with merged dims; repaired in b60e9a9, signature C02:nonviewable-grad-layout-raises), equal-shaped twin parameters and twin groups with alternating gradients, a second optimizer instance in the process, float32/bfloat16/float16 parameter and preconditioner dtypes (implementation-vs-torch.optim only, dtype-scaled tolerances), histories crossing the start step, empty parameters, many blocks; norm transfer also with momentum/dampening/Nesterov and decoupled decay (direction recovered from the momentum buffers / minus wd*w).",
     "ready": True,
 }
 
@@ -328,6 +328,40 @@ def model_tie_applicable(case):
                 or any(0 in sh for g in case["groups"] for sh in g["shapes"]))
 
 
+NORM_LP_TOL = {"f64": 1e-6, "f32": 1e-4, "bf16": 0.1, "f16": 0.02}     # relative, on ||delta|| / lr (measured worst deviations x >= 8)
+
+
+def gen_norm_lp_case(rng, pd, tiny, zero=False):
+    """Norm transfer with float32 / bfloat16 / float16 parameters (float32 factors): Adagrad-family grafting with a small grafting
+    epsilon, so that the grafted direction has entries of magnitude ~1 whatever the gradient scale and the parameter delta stays
+    far above the storage rounding of the parameter; with `tiny` gradients ||P_shampoo|| is small (~1e-4) and the guard constant in
+    ||P_graft|| / (||P_shampoo|| + 1e-16) becomes visible if it is anything but negligible."""
+    kind, amort = rng.choice([("shampoo", "eigen"), ("soap", "eigh")])          # no bfloat16 LAPACK kernels are involved: factors are float32
+    c = {"kind": kind, "amort": amort, "graft": rng.choice(["adagrad", "rmsprop", "adam"]), "geps": 1e-8, "gbeta2": rng.choice([0.5, 0.75]),
+         "betas": (rng.choice([0.0, 0.5]), rng.choice([1.0, 0.75])), "beta3": -1.0, "biascorr": True, "wd": 0.0, "decoupled": False,
+         "momentum": 0.0, "dampening": 0.0, "nesterov": False, "ignored": [], "override": 0, "max_dim": rng.choice([2, 3, 1024]),
+         "merge": rng.random() < 0.5, "freq": rng.choice([1, 2]), "lr": 0.5, "eps": 1e-2}
+    c["start"] = rng.choice([st for st in (1, 2) if st >= c["freq"]])       # the constructor demands start >= frequency
+    if pd == "f16":
+        c["geps"] = 1e-3                                                     # 1e-8 underflows in float16 (0/0 wherever a gradient entry is 0)
+    shapes = [rng.choice([[3, 4], [4, 4], [5], [2, 3, 2], [4, 6]]) for _ in range(rng.randint(1, 2))]
+    nsteps = rng.randint(3, 4)
+    steps = [{"present": [[True] * len(shapes)], "gseed": rng.randrange(1 << 30), "edits": None} for _ in range(nsteps)]
+    case = {"groups": [{"cfg": c, "shapes": shapes}], "init_seed": rng.randrange(1 << 30), "steps": steps, "presence_kinds": [["all"] * len(shapes)],
+            "variant": f"relnorm_{pd}" + ("_tiny" if tiny else "") + ("_zero" if zero else ""), "pdtype": pd, "qdtype": "f32" if pd != "f64" else "f64"}
+    if tiny:
+        case["gscale"] = 2.0 ** -17
+        if pd == "f64":              # binary64: gradients ~1e-16, so that ||P_shampoo|| is of the order of the 1e-16 guard itself
+            case["gscale"] = 2.0 ** -50
+            c["geps"] = 2.0 ** -60
+    if zero:                         # present gradients that are exactly zero: direction 0, never NaN
+        for s in steps:
+            if rng.random() < 0.6:
+                s["zero"] = [[0, rng.randrange(len(shapes))]]
+        steps[-1]["zero"] = [[0, 0]]
+    return case
+
+
 # ------------------------------------------------------------------------------------------ the two optimizers side by side
 
 def torch_hyper(kind, c):
@@ -571,6 +605,24 @@ def norm_worker(case):
     return {"rows": rows}
 
 
+def norm_lp_worker(case):
+    import torch
+    try:
+        params = optrun.build_params(case, dtype=getattr(torch, DTYPES[case["pdtype"]]))
+        opt = optrun.build_optimizer(case, params, dtype=getattr(torch, DTYPES[case["qdtype"]]))
+        recs, _, _ = optrun.run_case(case, opt=opt, params=params)
+    except Exception as e:  # noqa
+        return {"error": f"{type(e).__name__}: {e}"[:300]}
+    rows = []
+    for si, row in enumerate(recs):
+        for gi, r in enumerate(row):
+            if r["error"] or r["after"]["t"] < r["cfg"]["start"] or r["after"]["t"] == r["before"]["t"] or any(c["ans"] is None for c in r["calls"]):
+                continue
+            rows.append({"step": si, "group": gi, "t": r["after"]["t"], "blocks": sum(1 for g in r["grads"] if g is not None),
+                         "term": optrun.cstep(r).replace("(step_ok ", f"(norm_lp_ok {fl(NORM_LP_TOL[case['pdtype']])} ", 1)})
+    return {"rows": rows}
+
+
 def pool_map(fn, items):
     with mp.get_context("fork").Pool(16) as pool:
         return pool.map(fn, items, chunksize=1)
@@ -722,6 +774,21 @@ def run(ck: Check) -> None:
             nterms.append(row["term"])
     nverd = eval_terms(ck, nterms, "c02n", show="show_bools")
     lap("norm_phase")
+    # norm transfer with float32 / bfloat16 / float16 parameters (norm clause only, relative, dtype-scaled tolerance)
+    lp_cases = []
+    for _ in range(6 if thorough else 1):
+        for pd in ("f32", "bf16", "f16"):
+            lp_cases += [gen_norm_lp_case(ck.rng, pd, tiny) for tiny in ((False, True, True) if pd != "f16" else (False,))]
+            lp_cases.append(gen_norm_lp_case(ck.rng, pd, False, zero=True))
+        lp_cases += [gen_norm_lp_case(ck.rng, "f64", True), gen_norm_lp_case(ck.rng, "f64", True, zero=True)]
+    lres = pool_map(norm_lp_worker, lp_cases)
+    lidx, lterms = [], []
+    for ci, r in enumerate(lres):
+        for row in r.get("rows", []):
+            lidx.append((ci, row))
+            lterms.append(row["term"])
+    lverd = eval_terms(ck, lterms, "c02l", show="show_bools")
+    lap("norm_phase_lowprec")
 
     # ---- verdicts
     hist = {"target": {}, "class": {"exact": 0, "loose": 0}, "groups": {}, "orders": {}, "presence": {}, "max_dim": {}, "merge": {},
@@ -771,7 +838,12 @@ def run(ck: Check) -> None:
         hist["norm_block_steps"] += row["blocks"]
         if "F" in v:
             norm_bad.append((ci, row, v))
+    lp_bad = [(ci, row) for (ci, row), v in zip(lidx, lverd) if "F" in v]
     norm_nontrivial = len({ci for (ci, row) in nidx})
+    for (ci, row) in lidx:
+        k = "norm_phase:" + lp_cases[ci]["variant"] + ":checked_steps"
+        audit[k] = audit.get(k, 0) + 1
+    audit["norm_phase:lowprec:cases_with_step_error"] = sum(1 for r in lres if "error" in r)
     for (ci, row) in nidx:
         k = "norm_phase:" + norm_cases[ci].get("variant", "plain")
         audit[k + ":checked_steps"] = audit.get(k + ":checked_steps", 0) + 1
@@ -834,6 +906,18 @@ def run(ck: Check) -> None:
         ck.report("C02:norm-transfer", f"step {row['step']} (group step {row['t']} >= start): a block's parameter delta violates {list(comp)}",
                   {"kind": "property-fails", "part": "norm-transfer", "case": jsonable(case), "failing_step": row["step"], "components": list(comp),
                    "n_failing_steps": len(norm_bad), "predicate": "RunTorch.norm_ok"})
+    seen = set()
+    for ci, row in lp_bad:
+        pdt = lp_cases[ci]["pdtype"]
+        if pdt in seen:
+            continue
+        seen.add(pdt)
+        case = copy.deepcopy(lp_cases[ci])
+        case["steps"] = case["steps"][: row["step"] + 1]
+        ck.report(f"C02:norm-transfer:{pdt}", f"{pdt} parameters, step {row['step']} (group step {row['t']} >= start): a block's ||delta|| / lr is NaN or differs from "
+                                              f"||P_graft|| ||P_s|| / (||P_s|| + 1e-16) by more than {NORM_LP_TOL[pdt]} relative ({lp_cases[ci]['variant']})",
+                  {"kind": "property-fails", "part": "norm-transfer-lowprec", "case": jsonable(case), "failing_step": row["step"],
+                   "n_failing_steps": len(lp_bad), "predicate": "RunTorch.norm_lp_ok"})
     # only the hand-written torch model disagrees with torch.optim: the model (not /repo) is wrong
     if bad_model_b and not bad_impl:
         i, v = bad_model_b[0]
@@ -841,7 +925,7 @@ def run(ck: Check) -> None:
                         f"({[PAIR_COMPONENTS[k] for k in range(3) if v[k] != 'T']}); the warmup_eq_* theorems no longer transfer (fix TorchOptim.v)",
                   {"kind": "model-B-broken", "case": jsonable(warm[i]), "n": len(bad_model_b)}, no_failing_input=True)
     # only the Shampoo model disagrees with Shampoo while the property itself holds on every case
-    if model_bad and not bad_impl and not norm_bad:
+    if model_bad and not bad_impl and not norm_bad and not lp_bad:
         ci, st, gi, comp = model_bad[0]
         case = (sub + norm_cases)[ci]
         ck.report(None, f"correspondence broken: Optimizer.v model step disagrees with DistributedShampoo (step {st}, group {gi}, {comp}) while "
@@ -855,14 +939,14 @@ def run(ck: Check) -> None:
         samples.append({"target": warm[i]["torch"], "cfg": jsonable(warm[i])["groups"][0]["cfg"], "shapes": [g["shapes"] for g in warm[i]["groups"]],
                         "steps": len(warm[i]["steps"]), "verdict": pair_v.get(i)})
     ck.coverage.update({
-        "evaluations": len(idx) + nsteps2 + len(nterms),
+        "evaluations": len(idx) + nsteps2 + len(nterms) + len(lterms),
         "distinct_nontrivial": nontrivial + norm_nontrivial,
         "rule": "evaluation = one warm-up case (torch model vs torch.optim AND DistributedShampoo vs torch.optim over the whole history, all parameters), or one (step, group) of Shampoo vs the Optimizer.v model, or one post-start (step, group) norm/direction check over its blocks; non-trivial warm-up case = >= 3 parameter updates and (a parameter split into several blocks or an absent gradient); non-trivial norm case = has a checked step at or after the start step",
         "samples": samples, "distribution": hist, "exhaustive": False,
         "warmup_cases": len(warm), "corpus_cases": ncorpus, "constructor_errors": ctor_err,
         "shampoo_vs_torch_optim_disagreements": len(bad_impl), "torch_model_vs_torch_optim_disagreements": len(bad_model_b),
         "shampoo_model_steps": nsteps2, "shampoo_model_disagreeing_steps": len(model_bad),
-        "norm_cases": len(norm_cases), "norm_steps_checked": len(nterms), "norm_disagreements": len(norm_bad),
+        "norm_cases": len(norm_cases), "norm_steps_checked": len(nterms), "norm_disagreements": len(norm_bad), "norm_lowprec_steps_checked": len(lterms), "norm_lowprec_disagreements": len(lp_bad),
         "phase_seconds": phases,
         "quantifier_audit": dict(sorted(audit.items())),
         "not_exercised": {
@@ -871,12 +955,13 @@ def run(ck: Check) -> None:
             "non-dyadic betas / lr not binary32-representable at tolerance 1e-12": "Shampoo's float32 lr and bias-correction scalars then differ from torch's binary64 ones by up to 3e-5 relative; covered only by the loose class (2e-5)",
             "value-level tie of the Coq models for non-binary64 parameters": "the models are executed in binary64; float32/bfloat16/float16 parameters are compared implementation-vs-torch.optim only, at dtype-scaled tolerances (2e-5 / 0.15 / 0.03)",
             "gradient zero on ONE block of a multi-block parameter, structured (rank-1, dead-coordinate) gradients in the norm phase": "optrun.set_grads only zeroes whole parameters; singular / structured factor matrices are C10-C12's subject, zero blocks inside a parameter C04/C05's",
-            "norm transfer with non-binary64 dtypes": "the P_shampoo / P_graft reference is the binary64 Coq model; inverse roots amplify storage rounding beyond any useful tolerance",
+            "direction clause of the norm transfer with non-binary64 parameters": "the P_shampoo reference is the binary64 Coq model; inverse roots amplify storage rounding beyond any useful tolerance - the NORM clause is checked for float32/bfloat16/float16 parameters (relative 1e-4 / 0.1 / 0.02)",
+            "float16 parameters with tiny (2^-17 scale) gradients": "their squares underflow in float16 on both sides (0/0 in torch.optim as well); float16 with present zero gradients after the start step IS generated (found F15)",
             "norm transfer with dampening = 1": "division by 1 - dampening when recovering the direction from the momentum buffers",
             "distributed (multi-rank) configurations, PT2-compiled steps, checkpoint resume inside warm-up": "C06-C08, C18, C09",
             "parameters above a few dozen elements / 2 GiB / alignment classes": "no size-dependent code path in the grafting step other than blocking (C05, C14)",
         },
-        "tolerances": {"torch_model": 1e-9, "shampoo_model": 1e-9, "shampoo_vs_torch_exact_class": TOL_EXACT, "loose_class": TOL_LOOSE, "norm": 1e-9, "non_f64_parameter_dtype": DTYPE_TOL},
+        "tolerances": {"torch_model": 1e-9, "shampoo_model": 1e-9, "shampoo_vs_torch_exact_class": TOL_EXACT, "loose_class": TOL_LOOSE, "norm": 1e-9, "non_f64_parameter_dtype": DTYPE_TOL, "norm_lowprec_relative": NORM_LP_TOL},
     })
     ck.assumptions += ["binary64 parameters; exact class: lr binary32-representable, betas in {.5,.75,.875}, <= 8 steps (Shampoo's float32 scalars exact)",
                        "SGD/RMSprop: dampening = 0 (guard of the theorem; refuted otherwise); Adam/AdamW: a group's parameters have gradients together",
@@ -886,6 +971,10 @@ def run(ck: Check) -> None:
 def replay(obj) -> bool:
     common.assert_repo_imports()
     case = unjson(obj["case"])
+    if obj.get("part") == "norm-transfer-lowprec":
+        r = norm_lp_worker(case)
+        print(r.get("error") or f"{len(r['rows'])} post-start (step, group) records; the verdict is RunTorch.norm_lp_ok (run ./check C02)")
+        return True
     if obj.get("part") == "norm-transfer":
         recs, _, _ = optrun.run_case(case)
         r = recs[-1][0]
